@@ -137,3 +137,35 @@ func c11FollowWeight(c *Ctx, rule string, fn *ssa.Function, v ssa.Value, seen ma
 	}
 	return n
 }
+
+// c11WeightedFlag implements C11/C12.weighted-flag: the response cache key does not contain the listener's max-answer
+// setting, and an answer drawn from several address candidates is a sample: it may be cached only under the explicit
+// WRS timeout. "Weighted" must therefore mean "more than one candidate of a family", whatever the limit: a flag that
+// says "not weighted" whenever all candidates fit (seed c11r4h) lets a listener with a larger limit fill the cache with
+// an answer that is then replayed, over the limit, to a listener with a smaller one.
+func c11WeightedFlag(c *Ctx, rule string) {
+	c.Rule(rule, "A8 on (*Wrs).WeightedAnswer: the result depends on the candidate counts and constants only — no load of MaxAnswers (or of any other field than the per-family counts) in its data or control dependences")
+	fn := c.Func("db", "(*Wrs).WeightedAnswer")
+	c.Examined(fn)
+	var other []string
+	nCount := 0
+	for _, leaf := range resultLeaves(fn, 0) {
+		deps := backSliceCtl(leaf.V)
+		for _, f := range factsAt(leaf.At) {
+			for v := range backSlice(f.V, nil) {
+				deps[v] = true
+			}
+		}
+		for v := range deps {
+			if fa, ok := v.(*ssa.FieldAddr); ok {
+				name := fieldName(fa.X.Type(), fa.Field)
+				if strings.HasSuffix(name, "Count") {
+					nCount++
+				} else {
+					other = append(other, name)
+				}
+			}
+		}
+	}
+	c.Check(rule, fnName(fn)+"|depends-on-candidate-counts-only", len(other) == 0 && nCount > 0, fn.Pos(), fmt.Sprintf("other fields the flag depends on: %v", other))
+}
